@@ -1,6 +1,7 @@
 package props
 
 import (
+	"bytes"
 	"crypto/x509/pkix"
 	"encoding/asn1"
 	"fmt"
@@ -10,6 +11,7 @@ import (
 
 	"github.com/wokdav/gopki/generator/config"
 	"github.com/wokdav/gopki/generator/db"
+	"github.com/wokdav/gopki/generator/db/filesystem"
 	"pgregory.net/rapid"
 
 	"verif/harness/core"
@@ -224,7 +226,7 @@ func issuedViolates(cc c09Case, subj xref.Name) (bool, []string) {
 func TestC09(t *testing.T) {
 	r := core.Start(t, "C09")
 	defer r.Finish()
-	r.Rule = "(a) exhaustive at API level: profile attribute lists of length 0..3 (quick) / 0..4 (thorough) over {C,O,2.5.4.10 (= O as dotted OID),CN,1.2.3.4} with duplicates x optional flags x allowOther, plus the nil list; subjects of length 1..4 / 1..5 over the same alphabet plus foreign {L, 2.5.4.99}; every pair is fed to config.Validate and compared with a three-valued oracle (exhaustive embedding search; UNSPECIFIED only for order among listed types under allowOther). (a2) generated at API level: lists of 5-70 entries over the 13 schema names, dotted spellings and custom OIDs with subjects built around an embedding (required entries dropped, foreign types inserted, neighbours swapped), same oracle with the embedding decided by a table that the enumeration cross-checks against plain search. (b) end to end through YAML with the schema's attribute names: a rejecting profile must make the run fail with the directory unchanged, an accepting one must generate; one entity in six writes syntax beyond plain pairs into a subject component ('+O=Acme', escaped separators, …), for which only the output is judged: every certificate present after a run is decoded by the harness and the attribute types actually in it must not be ones its profile must reject. Non-trivial = MUST-accept or MUST-reject case with a non-empty list; distinct by the pair."
+	r.Rule = "(a) exhaustive at API level: profile attribute lists of length 0..3 (quick) / 0..4 (thorough) over {C,O,2.5.4.10 (= O as dotted OID),CN,1.2.3.4} with duplicates x optional flags x allowOther, plus the nil list; subjects of length 1..4 / 1..5 over the same alphabet plus foreign {L, 2.5.4.99}; every pair is fed to config.Validate and compared with a three-valued oracle (exhaustive embedding search; UNSPECIFIED only for order among listed types under allowOther). (a2) generated at API level: lists of 5-70 entries over the 13 schema names, dotted spellings and custom OIDs with subjects built around an embedding (required entries dropped, foreign types inserted, neighbours swapped), same oracle with the embedding decided by a table that the enumeration cross-checks against plain search. (a3) the same rule through db.AddAndSign on an open database: an existing entity handed in again under a second profile must be refused (artifact untouched) or accepted as the oracle says. (b) end to end through YAML with the schema's attribute names: a rejecting profile must make the run fail with the directory unchanged, an accepting one must generate; one entity in six writes syntax beyond plain pairs into a subject component ('+O=Acme', escaped separators, …), for which only the output is judged: every certificate present after a run is decoded by the harness and the attribute types actually in it must not be ones its profile must reject. Non-trivial = MUST-accept or MUST-reject case with a non-empty list; distinct by the pair."
 	r.Assumptions = []string{"under allowOther the order among listed attributes is not stated by the property: such cases are counted as unspecified and never fail"}
 	var unspec int
 	wrap := func(c c09Case) *core.Failure {
@@ -396,6 +398,11 @@ func TestC09(t *testing.T) {
 		r.Sample(cls[1], c)
 		return checkC09(c)
 	}
+	api := func(c c09API) *core.Failure {
+		r.Case(fmt.Sprintf("api %+v", c), "api:AddAndSign")
+		return checkC09API(c)
+	}
+	core.Register(r, "api", api)
 	core.Register(r, "validate", wrap)
 	core.Register(r, "validate-long", long)
 	core.Register(r, "e2e", e2e)
@@ -513,6 +520,18 @@ func TestC09(t *testing.T) {
 		return c
 	}
 	core.Rapid(r, "validate-long", r.Pick(4000, 200000), genLong, long)
+	core.Rapid(r, "api", r.Pick(150, 5000), func(t *rapid.T) c09API {
+		c := c09API{AllowOther: rapid.Bool().Draw(t, "allowOther")}
+		names := profAttrNames[:5]
+		for i, n := 0, rapid.IntRange(1, 3).Draw(t, "na"); i < n; i++ {
+			c.Attrs = append(c.Attrs, rapid.SampledFrom(names).Draw(t, fmt.Sprintf("a%d", i)))
+			c.Optional = append(c.Optional, rapid.Bool().Draw(t, fmt.Sprintf("o%d", i)))
+		}
+		for i, n := 0, rapid.IntRange(1, 4).Draw(t, "ns"); i < n; i++ {
+			c.Subject = append(c.Subject, rapid.SampledFrom(names).Draw(t, fmt.Sprintf("s%d", i)))
+		}
+		return c
+	}, api)
 
 	gen := func(t *rapid.T) c09E2E {
 		var c c09E2E
@@ -526,6 +545,21 @@ func TestC09(t *testing.T) {
 			for j := 0; j < ns; j++ {
 				k := rapid.SampledFrom(append(append([]string{}, names[:5]...), "POSTALCODE", "1.2.3.4")).Draw(t, fmt.Sprintf("%s-k%d", l, j))
 				subj = append(subj, core.RDN{Key: k, Value: fmt.Sprintf("v%d", j)})
+			}
+			if i > 0 && rapid.IntRange(0, 2).Draw(t, l+"-shares-profile") == 0 {
+				// several certificates of one run under the same profile (judging one must not disturb the next)
+				if rapid.Bool().Draw(t, l+"-same-subject-shape") {
+					subj = nil
+					for j, rd := range c.W.Ents[0].Subject {
+						subj = append(subj, core.RDN{Key: rd.Key, Value: fmt.Sprintf("w%d", j)})
+					}
+				}
+				e := core.Entity{File: fmt.Sprintf("e%d.yaml", i), Subject: subj, Profile: c.W.Ents[0].Profile}
+				if rapid.Bool().Draw(t, l+"-child") {
+					e.Issuer = "e0"
+				}
+				c.W.Ents = append(c.W.Ents, e)
+				continue
 			}
 			p := core.Profile{File: fmt.Sprintf("p%d.yaml", i), Name: fmt.Sprintf("prof%d", i)}
 			if i > 0 && rapid.IntRange(0, 2).Draw(t, l+"-namevariant") == 0 {
@@ -612,4 +646,73 @@ func TestC09(t *testing.T) {
 		return c
 	}
 	core.Rapid(r, "e2e", r.Pick(1500, 40000), gen, e2e)
+}
+
+// ---- the same rule through db.AddAndSign (the entry point for callers that hand configurations to an open database)
+
+type c09API struct {
+	Attrs      []string
+	Optional   []bool
+	AllowOther bool
+	Subject    []string
+}
+
+// checkC09API: an entity exists under a profile that accepts it; then the same configuration is handed in again with
+// overwrite=true but under a second profile. If that profile must reject the subject, the call must fail and the
+// certificate on file must stay as it is; if it must accept, the call succeeds.
+func checkC09API(c c09API) *core.Failure {
+	cc := c09Case{AllowOther: c.AllowOther, Attrs: c.Attrs, Optional: c.Optional, Subject: c.Subject}
+	verdict := c09Oracle(cc)
+	var w World
+	var subj []core.RDN
+	for i, k := range c.Subject {
+		subj = append(subj, core.RDN{Key: k, Value: fmt.Sprintf("v%d", i)})
+	}
+	w.Ents = []core.Entity{{File: "e0.yaml", Subject: subj, Profile: "loose"}}
+	strict := core.Profile{File: "strict.yaml", Name: "strict", HasAttrs: true, AllowOther: core.BoolP(c.AllowOther)}
+	for i, a := range c.Attrs {
+		strict.Attrs = append(strict.Attrs, core.ProfileAttr{Attribute: a, Optional: core.BoolP(c.Optional[i])})
+	}
+	w.Profs = []core.Profile{{File: "loose.yaml", Name: "loose"}, strict}
+	d := w.Dir()
+	if res := core.Run(d, core.FlagDefault); !res.OK() || res.Generated != 1 {
+		return core.Failf("C09/api/setup", "%s", res.String())
+	}
+	d.Tick(10)
+	before := d.Files["e0.pem"].Data
+	dbase := filesystem.NewFilesystemDatabase(&core.MemFS{D: d})
+	if err := dbase.Open(); err != nil {
+		return core.Failf("C09/api/setup", "open: %v", err)
+	}
+	defer dbase.Close()
+	cfg, err := dbase.GetConfig("e0")
+	if err != nil || cfg == nil {
+		return core.Failf("C09/api/setup", "GetConfig: %v", err)
+	}
+	again := *cfg
+	again.Profile = "strict"
+	var callErr error
+	var pan any
+	func() {
+		defer func() { pan = recover() }()
+		_, callErr = db.AddAndSign(dbase, again, true)
+	}()
+	if pan != nil {
+		return core.Failf("C09/panic", "db.AddAndSign panicked: %v", pan)
+	}
+	after := d.Files["e0.pem"]
+	switch verdict {
+	case mustReject:
+		if callErr == nil {
+			return core.Failf("C09/api/invalid-subject-accepted", "AddAndSign accepted subject %v under profile attrs=%v optional=%v allowOther=%v, which must reject it", c.Subject, c.Attrs, c.Optional, c.AllowOther)
+		}
+		if after == nil || !bytes.Equal(after.Data, before) {
+			return core.Failf("C09/api/reject-wrote-files", "AddAndSign refused the certificate (%v) but its artifact changed", callErr)
+		}
+	case mustAccept:
+		if callErr != nil {
+			return core.Failf("C09/api/valid-subject-rejected", "AddAndSign refused subject %v under profile attrs=%v optional=%v allowOther=%v: %v", c.Subject, c.Attrs, c.Optional, c.AllowOther, callErr)
+		}
+	}
+	return nil
 }
